@@ -15,8 +15,8 @@ derived Serialize prints the string): one encoding using another conversion prin
 Noted, not armed: the inline row-selection builders in build_record_batch accept fewer variants than the functions (no Utf8 parsing); a u64 above i64::MAX is kept as a string and becomes null in an Int64 Arrow column.
 Does NOT decide numeric equality of decoded cells, batch-size independence, or byte-level agreement of the three encodings.
 """
-FLOOR = 11
-REQUIRED = ["C20.a", "C20.b", "C20.c", "C20.d", "C20.e", "C20.f", "C20.g", "C20.h", "C20/C03.e1", "C20/C03.e2"]
+FLOOR = 12
+REQUIRED = ["C20.a", "C20.b", "C20.c", "C20.d", "C20.e", "C20.f", "C20.g", "C20.h", "C20.i", "C20/C03.e1", "C20/C03.e2"]
 
 
 def run(ctx):
@@ -161,6 +161,25 @@ def run(ctx):
                 bad.append(("status-from-truncated-document", "extract_http_status_from_response parses a prefix of the body as a complete JSON document: for an error body longer than the prefix the parse fails and the request is answered 200 while the body says 400 / 403", sp(b, c_.bb)))
         return bad
     ctx.run("C20.h", "K7 PROV", "http::dispatcher::extract_http_status_from_response", "the HTTP status agrees with the status in the body, whatever its length", h_)
+
+    def i_(inst):
+        # the Arrow schema announces the columns under the names the JSON / text schema frames use
+        ks = F.find(r"^shared::response::arrow::build_arrow_schema(::\{closure#\d+\})?$")
+        sites = []
+        for k in ks:
+            b = F.fn_exact(k)
+            for c in b.find_calls(r"arrow_schema::Field::new$|Field::new$"):
+                sites.append((b, c))
+        if not sites:
+            raise AnchorMissing("Field::new in build_arrow_schema")
+        bad = []
+        for b, c in sites:
+            L = b.origins(c.args[0])
+            inst.sites.append(sp(b, c.bb) + " name <- " + fmt_leaves(L))
+            if not all(l[0] in ("param", "upvar") and isinstance(l[-1], tuple) and ".name" in l[-1] for l in L) and not all(l[0] == "call" and re.search(r"Iterator>::next$|Iterator::next$", l[1]) and ".name" in l[-1] for l in L):
+                bad.append(("arrow-column-renamed", "build_arrow_schema names an Arrow field %s instead of the column's own name: the Arrow stream announces other column names than the JSON and text frames of the same result" % fmt_leaves(L), sp(b, c.bb)))
+        return bad
+    ctx.run("C20.i", "K7 PROV", "shared::response::arrow::build_arrow_schema", "Arrow fields carry the column names of the batch schema", i_)
 
     ctx.note("a u64 above i64::MAX is kept as Utf8 and becomes null in an Arrow Int64 column while JSON prints the number (value level, not armed)")
 
